@@ -62,7 +62,9 @@ func (p *Profile) FilterSamplesByName(focus, ignore, hide, show *regexp.Regexp) 
 
 	s := make([]*Sample, 0, len(p.Sample))
 	for _, sample := range p.Sample {
-		if focusedAndNotIgnored(sample.Location, focusOrIgnore) {
+		// A sample without frames cannot match: it is never ignored, and it
+		// is kept unless a focus expression demands a match.
+		if (focus == nil && len(sample.Location) == 0) || focusedAndNotIgnored(sample.Location, focusOrIgnore) {
 			if len(hidden) > 0 {
 				var locs []*Location
 				for _, loc := range sample.Location {
